@@ -307,3 +307,7 @@ Lemma client_calls_are_the_eight : map fst client_calls =
   ["read_coils"; "read_discrete_inputs"; "read_holding_registers"; "read_input_registers";
    "write_single_coil"; "write_single_register"; "write_multiple_coils"; "write_multiple_registers"].
 Proof. reflexivity. Qed.
+
+(* ---------- plain data ---------- *)
+Theorem fields_forwarded : field_forwarding = field_spec.
+Proof. reflexivity. Qed.
